@@ -32,6 +32,8 @@ var roleSpecs = map[string]roleSpec{
 	"scanner.r":           {"postscript", "scanner", "r", "uint16", nil},
 	"scanner.src":         {"postscript", "scanner", "src", "io.Reader", nil},
 	"scanner.buf":         {"postscript", "scanner", "buf", "[]byte", markReadBuffer},
+	"scanner.pos":         {"postscript", "scanner", "pos", "int", markBufferCursor},
+	"scanner.used":        {"postscript", "scanner", "used", "int", markBufferFill},
 	"scanner.peek":        {"postscript", "scanner", "peek", "[]byte", func(c *Ctx, tn *types.TypeName, f *types.Var) bool { return !markReadBuffer(c, tn, f) }},
 	"pfb.r":               {"pfb", "pfbReader", "r", "io.Reader", nil},
 	"pfb.state":           {"pfb", "pfbReader", "state", "int", nil},
@@ -206,4 +208,53 @@ func (c *Ctx) fieldTypeMatches(pkg string, t types.Type, want string) bool {
 		}
 	}
 	return false
+}
+
+// readBufferField: the field of the struct that plays the read-buffer role.
+func readBufferField(c *Ctx, tn *types.TypeName) string {
+	st := tn.Type().Underlying().(*types.Struct)
+	for i := 0; i < st.NumFields(); i++ {
+		f := st.Field(i)
+		if types.TypeString(f.Type(), relQual) == "[]byte" && markReadBuffer(c, tn, f) {
+			return f.Name()
+		}
+	}
+	return ""
+}
+
+// markBufferCursor: the int field that indexes the read buffer (buf[pos]).
+func markBufferCursor(c *Ctx, tn *types.TypeName, f *types.Var) bool {
+	buf := readBufferField(c, tn)
+	if buf == "" || f.Exported() {
+		return false
+	}
+	hit := false
+	for _, fn := range c.modFuncs {
+		eachInstr(fn, func(ins ssa.Instruction) {
+			if ix, ok := ins.(*ssa.IndexAddr); ok && isFieldLoad(origin(ix.X), tn, buf) && isFieldLoad(origin(ix.Index), tn, f.Name()) {
+				hit = true
+			}
+		})
+	}
+	return hit
+}
+
+// markBufferFill: the int field that bounds the filled part of the read buffer (buf[pos:used],
+// buf[used:]) and is not the cursor.
+func markBufferFill(c *Ctx, tn *types.TypeName, f *types.Var) bool {
+	buf := readBufferField(c, tn)
+	if buf == "" || f.Exported() || markBufferCursor(c, tn, f) {
+		return false
+	}
+	hit := false
+	for _, fn := range c.modFuncs {
+		eachInstr(fn, func(ins ssa.Instruction) {
+			if sl, ok := ins.(*ssa.Slice); ok && isFieldLoad(origin(sl.X), tn, buf) {
+				if sl.High != nil && isFieldLoad(origin(sl.High), tn, f.Name()) || sl.Low != nil && isFieldLoad(origin(sl.Low), tn, f.Name()) {
+					hit = true
+				}
+			}
+		})
+	}
+	return hit
 }
